@@ -12,7 +12,7 @@
 (* its correction, the block list, one buffer read per block.  KFixed is the arithmetic of  *)
 (* the working tree, KOld the arithmetic of the pinned commit (kept as a negative control:  *)
 (* TLC refutes that it refines the property-level layer).                                   *)
-EXTENDS Util
+EXTENDS PlanArith
 
 CONSTANTS MaxN,          \* bound on the number of samples in the stream
           Variant        \* "prop" | "fixed" | "old" : which layer drives the behaviour
@@ -26,10 +26,6 @@ VARIABLES cfg,      \* [N, gulp, start, nsamps, skip]
           kb, kpos  \* code-shaped only: remaining block list, stream position (samples)
 pvars == <<cfg, phase, covered, nyield, blk, out>>
 vars  == <<cfg, phase, covered, nyield, blk, out, kb, kpos>>
-
-G(c)   == Min(c.nsamps, c.gulp)                     \* effective gulp
-End(c) == c.start + c.nsamps
-Ids(a, n) == [i \in 1..n |-> a + i - 1]              \* samples a .. a+n-1
 
 Cfgs == { c \in [N : 1..MaxN, gulp : 1..(MaxN + 1), start : 0..MaxN, nsamps : 1..MaxN, skip : 0..MaxN] :   \* empty ranges excluded: C01's two clauses contradict each other there
             c.start + c.nsamps <= c.N }
@@ -78,28 +74,12 @@ PNext == PReject \/ PAccept \/ (\E n \in 1..(MaxN + 1) : PYield(n)) \/ PYieldTai
 PSpec == Init /\ [][PNext]_pvars
 
 (* ------------------------------ code-shaped layers ---------------------------------- *)
-(* block list of the implementation: <<length, seekback>> per block *)
-KPlanList(c) ==
-  LET g  == G(c)
-      d  == g - c.skip
-      q  == c.nsamps \div d
-      r  == c.nsamps % d
-      nreads   == IF r < c.skip THEN q - 1 ELSE q
-      lastread == IF r < c.skip THEN c.nsamps - (q - 1) * d ELSE r
-  IN [nreads |-> nreads, lastread |-> lastread,
-      blocks |-> [i \in 1..nreads |-> <<g, c.skip>>] \o (IF lastread # 0 THEN << <<lastread, 0>> >> ELSE <<>>)]
-
-(* working tree: a plan whose full-gulp blocks would run past the requested range is refused up front *)
-KHonourable(c) ==
-  LET pl == KPlanList(c) IN
-  pl.nreads > 0 => (pl.nreads - 1) * (G(c) - c.skip) + G(c) <= c.nsamps
-
 KPlan ==
   /\ phase = "plan"
   /\ IF cfg.skip >= G(cfg) \/ (Variant = "fixed" /\ ~KHonourable(cfg))
      THEN phase' = "rejected" /\ UNCHANGED <<cfg, covered, nyield, blk, out, kb, kpos>>
      ELSE /\ phase' = "read" /\ covered' = cfg.start /\ kpos' = cfg.start
-          /\ kb' = KPlanList(cfg).blocks
+          /\ kb' = IF Variant = "old" THEN KPlanListOld(cfg).blocks ELSE KPlanList(cfg).blocks
           /\ UNCHANGED <<cfg, nyield, blk, out>>
 
 (* one loop iteration: read into the buffer, check the byte count, seek back, yield *)
